@@ -11,7 +11,6 @@ ROOT = os.path.dirname(os.path.dirname(os.path.abspath(__file__)))
 CLAIMED: dict[str, tuple] = {}
 
 NOT_APPLICABLE: dict[str, str] = {
-    "C11": "dtype promotion and 'imaginary part stays zero' are properties of runtime values; no clause is a structural necessary condition (with zero imaginary parts E^2 and |E|^2 coincide), so static analysis has nothing sound to decide",
     "C25": "feasibility of the output of a data-dependent generator loop (brush placement bookkeeping over runtime arrays); no structural necessary clause",
     "C42": "needs multi-device execution; sharding equality is a runtime property",
 }
